@@ -90,6 +90,18 @@ pub fn tracked_key(key: u16) -> bool {
 }
 
 impl KvInner {
+    /// the error an injected fault answers with. Handler-level path: NOT `NoSpace` - the Interaction Model
+    /// takes a `NoSpace` that comes out of a cluster handler for "the response does not fit the TX buffer" and
+    /// ends the interaction without any answer (the op then runs into the controller's receive time-out and the
+    /// case is truncated); a file-backed store fails with `StdIoError`, which is answered with a status.
+    fn fault_code(&self) -> ErrorCode {
+        if self.h_mode {
+            ErrorCode::StdIoError
+        } else {
+            ErrorCode::NoSpace
+        }
+    }
+
     fn fault(&mut self) -> bool {
         if self.fail_in > 0 {
             self.fail_in -= 1;
@@ -127,7 +139,7 @@ impl KvBlobStore for Kv {
             return Ok(());
         }
         if i.fault() {
-            return Err(ErrorCode::NoSpace.into());
+            return Err(i.fault_code().into());
         }
         i.map.insert(key, data.to_vec());
         i.log.push((key, Some(data.to_vec())));
@@ -141,7 +153,7 @@ impl KvBlobStore for Kv {
             return Ok(());
         }
         if i.fault() {
-            return Err(ErrorCode::NoSpace.into());
+            return Err(i.fault_code().into());
         }
         if i.map.remove(&key).is_some() {
             i.log.push((key, None));
@@ -790,6 +802,11 @@ impl World {
                 // noc.rs:479
                 let ca = (num(2) as usize).clamp(1, self.cas.len()) - 1;
                 let (fid, node, subj, serial) = (num(3), num(4), num(5), num(6));
+                // noc.rs `handle_add_noc`: a failed store of the resumption cache is retried first
+                let kv = self.matter.kv(self.kv.clone());
+                if let Err(e) = self.matter.with_state(|state| state.verif_retry_resumption_store(&kv)) {
+                    return code(&e);
+                }
                 if let Err(e) = self.check_armed(&mode) {
                     return code(&e);
                 }
@@ -929,7 +946,7 @@ impl World {
                         // the store first, then disarm / close the window / drop PASE
                         let fab_idx = p.failsafe.check_disarm(&mode, p.fabrics)?;
                         persist.store(p.fabrics.fabric(fab_idx)?)?;
-                        self.nets.access(|networks| {
+                        let result = self.nets.access(|networks| {
                             let was_managed = networks.managed()?;
                             networks.set_managed(true)?;
                             let result = persist.persist_mut().store(NETWORKS_KEY, |buf| networks.save(buf));
@@ -937,7 +954,14 @@ impl World {
                                 networks.set_managed(was_managed)?;
                             }
                             result
-                        })?;
+                        });
+                        if let Err(e) = result {
+                            // the record of a fabric added under this fail-safe is taken out of the store again
+                            if p.failsafe.is_adding_fabric(fab_idx) {
+                                let _ = persist.remove(fab_idx);
+                            }
+                            return Err(e);
+                        }
                         p.failsafe.disarm(&mode, p.fabrics)?;
                         p.pase.close_comm_window(|| {}, |_, _| {})?;
                         p.sessions.remove_pase(pase_sess_id);
@@ -1102,10 +1126,7 @@ impl World {
             "flush" => {
                 // lib.rs:712 `run_persist_resumption`
                 let kv = self.matter.kv(self.kv.clone());
-                self.matter.with_state(|state| {
-                    let p = state.verif_parts();
-                    st(kv.access(|mut store, buf| p.resumption.store_persist(&mut store, buf)))
-                })
+                self.matter.with_state(|state| st(state.verif_store_resumption(&kv)))
             }
             "restart" => {
                 let map = self.kv.0.borrow().map.clone();
